@@ -68,7 +68,7 @@ def generate(rng, n, tier):
         if tw is not None and rng.random() < 0.6:     # a route that has to go from a node to its twin, or through both
             s, t = rng.choice([(tw, tw + 20), (tw + 20, tw), (s, tw + 20) if s != tw + 20 else (tw, tw + 20)])
         cases.append({'edges': g, 'src': s, 'tgt': t, 'shared': rng.random() < 0.3, 'edit': rng.random() < 0.3, 'warm': rng.choice(nodes), 'pre': rand_pre(rng), 'ids': rng.choice(['int', 'int', 'str', 'blank']),
-                      'desig': rng.choice(['id', 'id', 'id', 'getnode', 'fresh', 'other'])})
+                      'desig': rng.choice(['id', 'id', 'id', 'getnode', 'fresh', 'other']), 'astar': rng.random() < 0.25})
     return cases
 
 
@@ -81,6 +81,12 @@ def run_impl(case):
             if r0 is not None and len(r0) > 0:
                 r0.translate(100.0, 100.0)
                 r0.scale(2.0)
+    if case.get('astar'):
+        # an earlier, unrelated query on the same network made in the other routing mode (A*), then back to the default: the default-mode answers are those of a fresh network
+        from tracklib.core import Network
+        net.setRoutingMethod(Network.ROUTING_ALGO_ASTAR)
+        net.shortest_path(case['src'], case['warm']); net.shortest_path(case['tgt'], case['src']); net.shortest_distance(case['warm'], case['tgt'])
+        net.setRoutingMethod(Network.ROUTING_ALGO_DIJKSTRA)
     S, T = case['src'], case['tgt']
     if case.get('desig') in ('getnode', 'fresh', 'other'):
         # the ends designated by Node objects, which the API accepts as well as identifiers: the network's own objects, fresh Node(id, coord) objects,
